@@ -135,14 +135,14 @@ def applyDefaults (E : Env) (n : Uri.Uri) : Uri.Uri :=
     let u := Uri.setScheme E.uri.schemes n E.defaultScheme
     { u with host := E.defaultHost, port := some E.defaultPort }
 
-/-- `MOVED_PERMANENTLY(path)` builds its Location with `str(URI(path))`: the canonical path is parsed as a
-    URI reference (and composed) first; an `InvalidURI` from that becomes the 400 of `parse()` -/
-def movedPermanently (E : Env) (path : Bytes) : PyExc :=
-  match to400 (Uri.parse E.uri none path) with
+/-- `MOVED_PERMANENTLY(URI(path=canonical))`: the Location is the canonical path, composed (F54, F55 repairs: an absolute
+    request path stays absolute, and the decoded text is percent-encoded, not parsed); an `InvalidURI` from composing
+    becomes the 400 of `parse()` -/
+def movedPermanently (E : Env) (orig path : Bytes) : PyExc :=
+  let canonical := if startsWith orig [0x2F] && !startsWith path [0x2F] then 0x2F :: path else path
+  match to400 (Uri.compose E.sets { path := canonical }) with
   | .error e => e
-  | .ok loc => match to400 (Uri.compose E.sets loc) with
-    | .error e => e
-    | .ok _ => .status 301
+  | .ok _ => .status 301
 
 /-- server: `on_startline_complete` = on_uri_complete then on_protocol_complete -/
 def serverStartlineComplete (E : Env) (m : Msg) : R Msg :=
@@ -152,7 +152,7 @@ def serverStartlineComplete (E : Env) (m : Msg) : R Msg :=
   | .ok _ =>
     -- sanitize_request_uri_path
     let n := Uri.normalize E.uri m.uri
-    if n.path != m.uri.path then .error (movedPermanently E n.path)
+    if n.path != m.uri.path then .error (movedPermanently E m.uri.path n.path)
     else
       -- on_protocol_complete
       match StartLine.negotiate m.proto with
